@@ -58,6 +58,13 @@ def regenerate(ctx):
   except act2v.Untranslatable as e:
     raise core.TieBroken('actions.py / action_obj.py: %s' % e)
   core.write_if_changed(os.path.join(core.COQ, 'gen', 'Actions_gen.v'), text)
+  from harness import ot2v
+  try:
+    text = ot2v.translate(core.GRIST)
+  except ot2v.Untranslatable as e:
+    core.write_if_changed(os.path.join(core.COQ, 'gen', 'Objtypes_gen.v'), '(* not translated: %s *)\n' % str(e).replace('*', ' '))
+    raise core.TieBroken('objtypes.py is outside the translated subset: %s' % e)
+  core.write_if_changed(os.path.join(core.COQ, 'gen', 'Objtypes_gen.v'), text)
 
 
 # ---- values ---------------------------------------------------------------------------------------------
@@ -293,16 +300,18 @@ def correspond(ctx):
     if d is not None:
       add_encode(d[0], True)
 
-  imports = ['Grist.Lib.PyFloat', 'Grist.Model.Values']
+  imports = ['Grist.Lib.PyFloat', 'Grist.Model.Values', 'Grist.Model.ValuesPy', 'Grist.Model.ValuesPyEnc', 'GristGen.Objtypes_gen']
   ctx.log('literals: %d encode, %d decode cases' % (len(enc_cases), len(dec_cases)))
   bad = ctx.run_cases('encode', imports,
-                      'fun c => match c with (v, tbl, e) => value_eqb (encode_f (oracles_of tbl) %d v) e end' % FUEL,
+                      'fun c => match c with (v, tbl, e) => value_eqb (encode_f (oracles_of tbl) %d v) e && '
+                      'match gen_encode_object (oracles_of tbl) %d v with Ok e2 => value_eqb e2 e | Raise _ => false end end' % (FUEL, FUEL),
                       enc_cases, shard=ctx.n(100, 50), timeout=ctx.n(600, 3000))
   for k in bad[:6]:
     ctx.broken('correspondence:model encode_f differs from objtypes.encode_object',
                'value %s -> %r' % (pv.to_expr(enc_meta[k])[:200], objtypes.encode_object(enc_meta[k])))
   bad = ctx.run_cases('decode', imports,
-                      'fun c => match c with (e, tbl, d) => value_eqb (decode_f (oracles_of tbl) %d e) d end' % FUEL,
+                      'fun c => match c with (e, tbl, d) => value_eqb (decode_f (oracles_of tbl) %d e) d && '
+                      'match gen_decode_object (oracles_of tbl) %d e with Ok d2 => value_eqb d2 d | Raise _ => false end end' % (FUEL, FUEL),
                       dec_cases, shard=ctx.n(100, 50), timeout=ctx.n(600, 3000))
   for k in bad[:6]:
     ctx.broken('correspondence:model decode_f differs from objtypes.decode_object',
